@@ -8,6 +8,7 @@ pub mod c05;
 pub mod c06;
 pub mod c07;
 pub mod c08;
+pub mod c09;
 pub mod c10;
 pub mod c11;
 pub mod c12;
@@ -20,7 +21,7 @@ pub mod c19;
 pub mod c20;
 
 pub fn all() -> Vec<&'static CheckDef> {
-    vec![&c01::DEF, &c01::DEF_C02, &c05::DEF, &c06::DEF, &c12::DEF, &c11::DEF, &c10::DEF, &c19::DEF, &c07::DEF, &c08::DEF, &c13::DEF, &c14::DEF, &c16::DEF, &c17::DEF, &c15::DEF, &c20::DEF, &c04::DEF, &c03::DEF]
+    vec![&c01::DEF, &c01::DEF_C02, &c05::DEF, &c06::DEF, &c12::DEF, &c11::DEF, &c10::DEF, &c19::DEF, &c07::DEF, &c08::DEF, &c13::DEF, &c14::DEF, &c16::DEF, &c17::DEF, &c15::DEF, &c20::DEF, &c04::DEF, &c03::DEF, &c09::DEF]
 }
 
 pub fn find(id: &str) -> Option<&'static CheckDef> {
